@@ -175,6 +175,8 @@ static std::vector<size_t> few_positions(size_t len) { return {0, 1, len, NPOS};
 static long L(size_t x) { return x == NPOS ? -1 : static_cast<long>(x); }
 
 static const char ALPHA5[5] = {'\x00', 'a', 'b', '\x80', '\xFF'};
+// positions / counts far beyond any size: would expose a truncation to 32 bits / int, or pos + n wrap-around
+static const size_t HUGE3[3] = {1ull << 32, (1ull << 32) + 1, NPOS - 1};
 
 // ---------------------------------------------------------------- block H: unary queries
 static void run_hay(Block& b) {
@@ -198,13 +200,15 @@ static void run_hay(Block& b) {
     b.call("string_conv", {}, [](Vals& o, auto v, auto) { std::string s(v); o.str(s); });
     for (size_t pos : P) for (size_t n : P)
         b.call("substr", {L(pos), L(n)}, [=](Vals& o, auto v, auto) { auto r = v.substr(pos, n); o.str(r); });
-    for (size_t pos : P) for (size_t n : P)
+    auto do_copy = [&b](size_t n, size_t pos) {
         b.call("copy", {L(n), L(pos)}, [=](Vals& o, auto v, auto) {
             char buf[64]; size_t bl = v.size() + 3; std::memset(buf, '.', sizeof buf);
             std::string_view whole(buf, bl);
             try { size_t r = v.copy(buf, n, pos); o.size_t_(r); o.str(whole); }
             catch (const std::out_of_range&) { o.push(-2); o.str(whole); }
         });
+    };
+    for (size_t pos : P) for (size_t n : P) do_copy(n, pos);
     for (char c : ALPHA5) {
         long lc = static_cast<unsigned char>(c);
         b.call("starts_with_char", {lc}, [=](Vals& o, auto v, auto) { o.boolean(v.starts_with(c)); });
@@ -217,6 +221,15 @@ static void run_hay(Block& b) {
             b.call("find_first_not_of_char", {lc, L(pos)}, [=](Vals& o, auto v, auto) { o.size_t_(v.find_first_not_of(c, pos)); });
             b.call("find_last_not_of_char", {lc, L(pos)}, [=](Vals& o, auto v, auto) { o.size_t_(v.find_last_not_of(c, pos)); });
         }
+    }
+    for (size_t g : HUGE3) {
+        b.call("at", {L(g)}, [=](Vals& o, auto v, auto) { o.ch(v.at(g)); });
+        b.call("substr", {L(g), 1}, [=](Vals& o, auto v, auto) { auto r = v.substr(g, 1); o.str(r); });
+        b.call("substr", {0, L(g)}, [=](Vals& o, auto v, auto) { auto r = v.substr(0, g); o.str(r); });
+        do_copy(g, 0);
+        do_copy(1, g);
+        b.call("find_char", {'a', L(g)}, [=](Vals& o, auto v, auto) { o.size_t_(v.find('a', g)); });
+        b.call("rfind_char", {'a', L(g)}, [=](Vals& o, auto v, auto) { o.size_t_(v.rfind('a', g)); });
     }
     b.finish();
 }
@@ -291,6 +304,15 @@ static void block_pair(const std::string& h, const std::string& s, bool verbose,
         b.call("compare3_cstr", {L(pos1), L(n1)}, [=](Vals& o, auto v, auto) { o.sign(v.compare(pos1, n1, cs)); });
         b.call("compare3_ptr_n", {L(pos1), L(n1)}, [=](Vals& o, auto v, auto) { o.sign(v.compare(pos1, n1, cs, sn)); });
     }
+    for (size_t g : HUGE3) {
+        b.call("find", {L(g)}, [=](Vals& o, auto v, auto x) { o.size_t_(v.find(x, g)); });
+        b.call("rfind", {L(g)}, [=](Vals& o, auto v, auto x) { o.size_t_(v.rfind(x, g)); });
+        b.call("find_first_of", {L(g)}, [=](Vals& o, auto v, auto x) { o.size_t_(v.find_first_of(x, g)); });
+        b.call("find_last_of", {L(g)}, [=](Vals& o, auto v, auto x) { o.size_t_(v.find_last_of(x, g)); });
+        b.call("find_first_not_of", {L(g)}, [=](Vals& o, auto v, auto x) { o.size_t_(v.find_first_not_of(x, g)); });
+        b.call("find_last_not_of", {L(g)}, [=](Vals& o, auto v, auto x) { o.size_t_(v.find_last_not_of(x, g)); });
+        b.call("compare3", {0, L(g)}, [=](Vals& o, auto v, auto x) { o.sign(v.compare(0, g, x)); });
+    }
     b.finish();
 }
 
@@ -334,6 +356,10 @@ static void block_alias(const std::string& buf, size_t o1, size_t l1, size_t o2,
     for (size_t pos1 : TWO_POS) for (size_t n1 : TWO_N) for (size_t pos2 : TWO_POS) for (size_t n2 : TWO_N)
         b.call("compare5", {L(pos1), L(n1), L(pos2), L(n2)},
                [=](Vals& o, auto v, auto x) { o.sign(v.compare(pos1, n1, x, pos2, n2)); });
+    for (size_t g : HUGE3) {
+        b.call("find", {L(g)}, [=](Vals& o, auto v, auto x) { o.size_t_(v.find(x, g)); });
+        b.call("rfind", {L(g)}, [=](Vals& o, auto v, auto x) { o.size_t_(v.rfind(x, g)); });
+    }
     b.finish();
 }
 
